@@ -176,4 +176,92 @@ theorem repair_midpoint_old_margin_fails :
   unfold cross2
   norm_num
 
+/-! ### the two `Repair` passes together
+
+`repairSingularEdges` inserts `N` from the ends as they are THEN; `repairSingularVertices` may afterwards
+move either end (a singular vertex is split into copies, each moved by `ev` in a unit direction).  What
+has to hold is that `N` lies between the FINAL ends.  Relative to the midpoint of the final ends `N` is
+displaced by at most `ee + ev`, and the final ends are `m − ev` inside their cubes: `2·ee + 3·ev < m`
+suffices.  With `ee = ev = 0.49·m` (the code before the repair of /repo) it does not
+(`repair_two_passes_old_factor_fails`, the numbers of a real failing input). -/
+
+open M3d.DC in
+theorem repair_two_passes_between (a1 a2 b1 b2 m ee ev dx dz p1 p2 q1 q2 : K)
+    (ha1 : m ≤ a1) (ha2 : m ≤ a2) (hb1 : m ≤ b1) (hb2 : m ≤ b2) (hee : 0 ≤ ee) (hev : 0 ≤ ev)
+    (hm : 2 * ee + 3 * ev < m)
+    (hdx : |dx| ≤ 1) (hdz : |dz| ≤ 1) (hp1 : |p1| ≤ 1) (hp2 : |p2| ≤ 1) (hq1 : |q1| ≤ 1) (hq2 : |q2| ≤ 1) :
+    let A : K × K := (-(a1 + ev * p1), a2 + ev * p2)
+    let B : K × K := (b1 + ev * q1, b2 + ev * q2)
+    let N : K × K := ((-a1 + b1) / 2 + ee * dx, (a2 + b2) / 2 + ee * dz)
+    0 < cross2 B N ∧ 0 < cross2 N A := by
+  intro A B N
+  have hx := abs_le.1 hdx
+  have hz := abs_le.1 hdz
+  have hP1 := abs_le.1 hp1
+  have hP2 := abs_le.1 hp2
+  have hQ1 := abs_le.1 hq1
+  have hQ2 := abs_le.1 hq2
+  -- products with the unit-box bounds
+  have tx1 : 0 ≤ ee * (dx + 1) := mul_nonneg hee (by linarith)
+  have tx2 : 0 ≤ ee * (1 - dx) := mul_nonneg hee (by linarith)
+  have tz1 : 0 ≤ ee * (dz + 1) := mul_nonneg hee (by linarith)
+  have tz2 : 0 ≤ ee * (1 - dz) := mul_nonneg hee (by linarith)
+  have tp1 : 0 ≤ ev * (p1 + 1) := mul_nonneg hev (by linarith)
+  have tp1' : 0 ≤ ev * (1 - p1) := mul_nonneg hev (by linarith)
+  have tp2 : 0 ≤ ev * (p2 + 1) := mul_nonneg hev (by linarith)
+  have tp2' : 0 ≤ ev * (1 - p2) := mul_nonneg hev (by linarith)
+  have tq1 : 0 ≤ ev * (q1 + 1) := mul_nonneg hev (by linarith)
+  have tq1' : 0 ≤ ev * (1 - q1) := mul_nonneg hev (by linarith)
+  have tq2 : 0 ≤ ev * (q2 + 1) := mul_nonneg hev (by linarith)
+  have tq2' : 0 ≤ ev * (1 - q2) := mul_nonneg hev (by linarith)
+  -- margins of the final ends
+  have f1 : m - ev ≤ a1 + ev * p1 := by linarith
+  have f2 : m - ev ≤ a2 + ev * p2 := by linarith
+  have f3 : m - ev ≤ b1 + ev * q1 := by linarith
+  have f4 : m - ev ≤ b2 + ev * q2 := by linarith
+  by_cases h0 : ee + ev = 0
+  · have hee0 : ee = 0 := by linarith
+    have hev0 : ev = 0 := by linarith
+    have := repair_midpoint_between a1 a2 b1 b2 m 0 0 0 ha1 ha2 hb1 hb2 (le_refl 0) (by linarith)
+      (by simp) (by simp)
+    simp only [mul_zero, add_zero] at this
+    show 0 < cross2 (b1 + ev * q1, b2 + ev * q2) ((-a1 + b1) / 2 + ee * dx, (a2 + b2) / 2 + ee * dz) ∧
+      0 < cross2 ((-a1 + b1) / 2 + ee * dx, (a2 + b2) / 2 + ee * dz) (-(a1 + ev * p1), a2 + ev * p2)
+    rw [hee0, hev0]
+    simpa using this
+  · have hpos : 0 < ee + ev := lt_of_le_of_ne (by linarith) (Ne.symm h0)
+    -- the displacement of `N` from the midpoint of the final ends, in units of `ee + ev`
+    have key := repair_midpoint_between (a1 + ev * p1) (a2 + ev * p2) (b1 + ev * q1) (b2 + ev * q2) (m - ev)
+      (ee + ev) ((ee * dx + ev * (p1 - q1) / 2) / (ee + ev)) ((ee * dz - ev * (p2 + q2) / 2) / (ee + ev))
+      f1 f2 f3 f4 (by linarith) (by linarith)
+      (by
+        rw [abs_div, abs_of_pos hpos, div_le_one hpos, abs_le]
+        constructor <;> linarith)
+      (by
+        rw [abs_div, abs_of_pos hpos, div_le_one hpos, abs_le]
+        constructor <;> linarith)
+    have c1 : (ee + ev) * ((ee * dx + ev * (p1 - q1) / 2) / (ee + ev)) = ee * dx + ev * (p1 - q1) / 2 := by
+      rw [← mul_div_assoc, mul_div_cancel_left₀ _ h0]
+    have c2 : (ee + ev) * ((ee * dz - ev * (p2 + q2) / 2) / (ee + ev)) = ee * dz - ev * (p2 + q2) / 2 := by
+      rw [← mul_div_assoc, mul_div_cancel_left₀ _ h0]
+    have e1 : (-(a1 + ev * p1) + (b1 + ev * q1)) / 2 +
+        (ee + ev) * ((ee * dx + ev * (p1 - q1) / 2) / (ee + ev)) = (-a1 + b1) / 2 + ee * dx := by
+      rw [c1]; ring
+    have e2 : ((a2 + ev * p2) + (b2 + ev * q2)) / 2 +
+        (ee + ev) * ((ee * dz - ev * (p2 + q2) / 2) / (ee + ev)) = (a2 + b2) / 2 + ee * dz := by
+      rw [c2]; ring
+    simp only [e1, e2] at key
+    exact key
+
+open M3d.DC in
+/-- the factor 0.49 in BOTH passes (margin `m = RepairEpsilon`): the numbers of a real input (lattice units
+scaled by 100; `blobSolid` seed 2078, x-edge (8,7,7)) — the inserted vertex is past the moved end. -/
+theorem repair_two_passes_old_factor_fails :
+    ∃ (a1 a2 b1 b2 m ee ev dx dz p1 p2 : ℚ), m ≤ a1 ∧ m ≤ a2 ∧ m ≤ b1 ∧ m ≤ b2 ∧
+      ee = 49 / 100 * m ∧ ev = 49 / 100 * m ∧ |dx| ≤ 1 ∧ |dz| ≤ 1 ∧ |p1| ≤ 1 ∧ |p2| ≤ 1 ∧
+      cross2 (((-a1 + b1) / 2 + ee * dx, (a2 + b2) / 2 + ee * dz) : ℚ × ℚ) (-(a1 + ev * p1), a2 + ev * p2) < 0 := by
+  refine ⟨491 / 10, 1, 1, 1, 1, 49 / 100, 49 / 100, -5 / 49, -6 / 7, -20 / 49, 24 / 49, ?_⟩
+  unfold cross2
+  norm_num [abs_le]
+
 end M3d.DcBlock
